@@ -1,6 +1,6 @@
 (** C08 - message-ID window (property theorems only).  [P] ranges over every behaviour of the exchange handlers. *)
 From Coq Require Import ZArith Bool List.
-From IkeSa Require Import Gen.IkeFacts Shell ShellProofs.
+From IkeSa Require Import Gen.IkeFacts Shell ShellProofs ShellTrace.
 Import ListNotations.
 Open Scope Z_scope.
 
@@ -64,3 +64,60 @@ Theorem C08_send_stores_request : forall (P : iface) (s : sa P) (now : Z) (d : d
   last_resp P s' = last_resp P s /\ dpd_at P s' = dpd_at P s /\ pending P s' = pending P s /\ same_identity P s s'.
 Proof. exact send_request_spec. Qed.
 Print Assumptions C08_send_stores_request.
+
+(** ------------------------------------------------------------------ whole histories
+    [sevent]: a parsed message (anything: replayed, duplicated, reordered, forged), a local trigger, or a pass of
+    the timer loops; [sstep] is what the IKE_SA does with it; [executes s m] says that the request handler runs
+    on [m] in [s]; [accepts s m] that the response [m] is taken. *)
+
+(** Over EVERY history the IDs of the requests whose handler ran are peer_id, peer_id+1, peer_id+2, ... and the
+    receive counter ends right after the last of them. *)
+Theorem C08_executed_requests_are_consecutive : forall (P : iface) (es : list (sevent P)) (s : sa P),
+  executed_ids P es s = count_from (peer_id P s) (length (executed_ids P es s)) /\
+  peer_id P (fold_left (sstep P) es s) = peer_id P s + Z.of_nat (length (executed_ids P es s)).
+Proof. exact executed_ids_consecutive. Qed.
+Print Assumptions C08_executed_requests_are_consecutive.
+
+(** ... hence no request ID is executed twice, whatever is replayed *)
+Theorem C08_no_request_executed_twice : forall (P : iface) (es : list (sevent P)) (s : sa P),
+  NoDup (executed_ids P es s).
+Proof. exact executed_at_most_once. Qed.
+Print Assumptions C08_no_request_executed_twice.
+
+(** a request that is not executed leaves the handler-owned part of the IKE_SA (keys, CHILD_SAs, state) as it was *)
+Theorem C08_unexecuted_request_changes_nothing_inside : forall (P : iface) (s : sa P) (m : pmsg (B P)) (now : Z),
+  h_resp (p_hdr m) = false -> executes P s m = false -> inner P (fst (process_message P s m now)) = inner P s.
+Proof. exact unexecuted_request_leaves_inner. Qed.
+Print Assumptions C08_unexecuted_request_changes_nothing_inside.
+
+(** the send counter moves only when a response carrying exactly its value is taken: then by one (or back to 0
+    when the handler restarts IKE_SA_INIT after a COOKIE / INVALID_KE_PAYLOAD answer) *)
+Theorem C08_send_counter_moves_only_on_matching_response : forall (P : iface) (s : sa P) (e : sevent P),
+  my_id P (sstep P s e) = my_id P s \/
+  (exists m now, e = SMsg P m now /\ accepts P s m = true /\ h_id (p_hdr m) = my_id P s /\ h_resp (p_hdr m) = true /\
+                 (my_id P (sstep P s e) = my_id P s + 1 \/ my_id P (sstep P s e) = 0)).
+Proof. exact step_my_id. Qed.
+Print Assumptions C08_send_counter_moves_only_on_matching_response.
+
+(** the follow-up request sent after a response, and a request built for a local trigger, carry the send counter *)
+Theorem C08_followup_request_carries_send_counter : forall (P : iface) (s : sa P) (m : pmsg (B P)) (now : Z) s' d,
+  process_response P s m now = (s', Some d) -> h_id (d_hdr d) = my_id P s' /\ h_resp (d_hdr d) = false.
+Proof. exact process_response_emits_current_id. Qed.
+Print Assumptions C08_followup_request_carries_send_counter.
+
+Theorem C08_trigger_request_carries_send_counter : forall (P : iface) (s : sa P) (now : Z) (ev : EV P) s' d,
+  process_trigger P s now ev = (s', Some d) -> h_id (d_hdr d) = my_id P s' /\ h_resp (d_hdr d) = false.
+Proof. exact trigger_emits_current_id. Qed.
+Print Assumptions C08_trigger_request_carries_send_counter.
+
+(** one request outstanding at a time (regenerated tables of ikesa.py): generators enter request-outstanding
+    states only; triggers and timers build a request only in states where none is outstanding *)
+Theorem C08_one_request_outstanding :
+  (forall f, In f request_generators ->
+             assigned_by f <> [] /\ forallb rt_states (assigned_by f) = true) /\
+  (forall st, acquire_must_queue st = false -> rt_states st = false) /\
+  (forall st, expire_must_queue st = false -> rt_states st = false) /\
+  (forall at_ now st, dpd_due at_ now st = true -> rt_states st = false) /\
+  rt_states ST_ESTABLISHED = false.
+Proof. exact one_request_outstanding. Qed.
+Print Assumptions C08_one_request_outstanding.
